@@ -2020,6 +2020,11 @@ class Cluster(object):
             if (not was_up and not expect_host_to_be_down) or host.is_currently_reconnecting():
                 return
 
+            if not was_up and host._currently_handling_node_up:
+                # the host was not up and on_up() is trying to bring it up: that either marks it up
+                # or tells the policies and starts a new reconnector itself
+                return
+
         log.warning("Host %s has been marked down", host)
 
         self.profile_manager.on_down(host)
